@@ -37,6 +37,9 @@ PROP = {'title': 'optional / either / variant combinators satisfy their algebrai
                            'harness/C04_rich_move_only.cpp'],
                'libs': [],
                'flavour': 'asan'}],
+ 'compile_probes': [{'name': 'variant::match(lvalue_variant,T&_continuations)', 'source': 'harness/C04_probe_lvalue_ref.cpp', 'flags': ['-DC04_PROBE_KIND=1']},
+                    {'name': 'optional::maybe(lvalue_optional,T&_continuation)', 'source': 'harness/C04_probe_lvalue_ref.cpp', 'flags': ['-DC04_PROBE_KIND=2']},
+                    {'name': 'either::match(lvalue_either,T&_continuations)', 'source': 'harness/C04_probe_lvalue_ref.cpp', 'flags': ['-DC04_PROBE_KIND=3']}],
  'deadline': {'quick': 240, 'thorough': 1200},
  'rule': 'nested loops over explicit finite domains: optional<D> (4 values), either<E,D> (5), their nestings (5 / 7), variant<A,B,C> (7), '
          'value category of each argument (const&, &, &&), unary function tables (27 D->D, 64 D->optional<D>, 125 D->either<E,D>, 8 '
